@@ -87,21 +87,23 @@ func (g *generator) run(pass *codegen.Pass) error {
 		}
 
 		for _, spec := range genDecl.Specs {
+			// A `type ( ... )` group may mix struct and non-struct specs and
+			// structs without markers: skip those, do not abandon the group.
 			ts, ok := spec.(*ast.TypeSpec)
 			if !ok {
-				return
+				continue
 			}
 
 			typeMarkers := markersInspect.TypeMarkers(ts)
 
 			structType, ok := ts.Type.(*ast.StructType)
 			if !ok {
-				return
+				continue
 			}
 
 			metadata := analyzeMarker(pass, markersInspect, typeMarkers, structType, "", ts.Name.Name)
 			if len(metadata) == 0 {
-				return
+				continue
 			}
 
 			tmplData := TemplateData{
